@@ -39,7 +39,7 @@ class MutagenTagBase(Tag, ABC):
         self.try_to_extract_property(metadata_dict, audio_file.info, "sample_rate")
         self.try_to_extract_property(metadata_dict, audio_file.info, "bitrate")
         if isinstance(audio_file, mutagen.mp3.MP3):
-            metadata_dict["comments"] = audio_file.get("COMM::XXX", "")
+            metadata_dict["comments"] = str(audio_file.get("COMM::XXX", ""))
             audio_file = mutagen.mp3.MP3(file.absolute_path, ID3=EasyID3)
         else:
             self.try_to_extract_property(
